@@ -54,8 +54,9 @@ class Cursor:
                b: tuple of sorted (key, lower bound)), keys 'cur' | ('off', vid) | ('rel', vid),
                bools: tuple of sorted (vid, bool))"""
 
-    def __init__(self, prog, fns):
+    def __init__(self, prog, fns, progress=False):
         self.prog = prog
+        self.progress = progress     # second mode (R1.6): also track "cursor unmoved when the call returns false" and split call outcomes
         self.fns = {fkey(f): f for f in fns}
         self.summary = {}          # fkey -> {"adv_true": int, "adv_any": int}
         self.obligations = {}      # (fn short q, descriptor) -> {"ok":..., "where":..., "need":..., "have":...}
@@ -69,6 +70,39 @@ class Cursor:
                     if x.get("k") == "lit" and x.get("lt") == "string":
                         self.symlen[s["q"]] = len(x["v"])
                         self.symlen[s["name"]] = len(x["v"])
+
+    def lambda_fn(self, f, lam):
+        """the analysed function for a lambda expression node (for a generic lambda: its instantiation with the same name)"""
+        g = self.prog.fn_by_id(f, lam.get("fn")) if lam.get("fn") is not None else None
+        if g is not None and fkey(g) in self.fns:
+            return g
+        if g is None:
+            return None
+        want = strip_targs(g["q"])
+        for h in self.fns.values():
+            if h.get("kind") == "lambda" and strip_targs(h["q"]) == want:
+                return h
+        return None
+
+    def touches(self, g):
+        """can g (transitively, through the analysed functions and their closures) move the parser's cursor?"""
+        cache = self.__dict__.setdefault("_touch", {})
+        k = fkey(g)
+        if k in cache:
+            return cache[k]
+        cache[k] = True            # recursion: assume it can
+        res = False
+        for x in walk(g["body"]):
+            if x.get("k") == "member" and x.get("name") == "m_position":
+                res = True
+                break
+            if x.get("k") in ("call", "lambda") and x.get("fn") is not None:
+                c = self.lambda_fn(g, x) if x.get("k") == "lambda" else self.prog.fn_by_id(g, x["fn"])
+                if c is not None and fkey(c) in self.fns and c is not g and self.touches(c):
+                    res = True
+                    break
+        cache[k] = res
+        return res
 
     # ---- state helpers
     @staticmethod
@@ -142,9 +176,20 @@ class Cursor:
                 e.update(ok=False, where="%s:%d" % (f["file"], n["l"]), have=have, need=need)
 
     # ---- analysis of one function
-    def analyse(self, f, entry=None, depth=0):
+    def analyse(self, f, entry=None, depth=0, node=None, want_ai=False):
         prog = self.prog
         me = self
+
+        def with_bool(s, key, val):
+            d = dict(s[2])
+            if val is None:
+                d.pop(key, None)
+            else:
+                d[key] = val
+            return (s[0], s[1], tuple(sorted(d.items(), key=lambda kv: str(kv[0]))))
+
+        def moved(s):
+            return with_bool(s, "__moved__", True) if me.progress else s
 
         def shift(s, target, d, more=None):
             """move position `target` by d (lower-bound arithmetic)"""
@@ -213,6 +258,9 @@ class Cursor:
                 l = strip_casts(n["lhs"])
                 if l.get("k") == "ref" and l.get("rk") == "local" and prog.T(f, l.get("t")).replace("const ", "") == "bool":
                     return bool_assign(s, l["vid"], n["rhs"], n.get("op"))
+                if me.progress and l.get("k") == "member" and n.get("op") == "=" and prog.T(f, l.get("t")).replace("const ", "") == "bool":
+                    r = strip_casts(n["rhs"])
+                    return (with_bool(s, ("m", expr_str(prog, f, l)), bool(r.get("v")) if r.get("k") == "lit" and r.get("lt") == "bool" else None),)
                 return (s,)
             if k != "call":
                 return (s,)
@@ -220,6 +268,13 @@ class Cursor:
             obj = n.get("obj")
             tgt = me.posref(f, obj) if obj is not None else None
             if tgt is not None and op in ("++", "--", "+=", "-=", "="):
+                if tgt == "cur":
+                    s = moved(s)
+                if me.progress:
+                    # facts about the character under this position are gone; an unconfirmed ++ is remembered (see has_more in refine)
+                    s = (s[0], s[1], tuple(kv for kv in s[2] if not (isinstance(kv[0], tuple) and kv[0][0] in ("p", "pp") and kv[0][1] == tgt)))
+                    if op == "++" and tgt not in s[0]:
+                        s = with_bool(s, ("pp", tgt), True)
                 if op == "++":
                     d = 1 if tgt in s[0] else 0
                     return (shift(s, tgt, d, more=s[0] - {tgt}),)
@@ -284,22 +339,84 @@ class Cursor:
                 return (s,)
             # calls to other parser functions: they never end before where they started
             callee = prog.fn_by_id(f, n.get("fn")) if n.get("fn") is not None else None
+            if me.progress and callee is not None and fkey(callee) in me.fns and not me.touches(callee):
+                return (s,)
             if callee is not None and fkey(callee) in me.fns and (obj is None or strip_casts(obj).get("k") == "this"):
-                return (me.setb(s, {}, more=s[0] - {"cur"}),)
+                if me.progress and me.summary.get(fkey(callee), {}).get("unmoved_on_false") and prog.T(callee, callee.get("ret")) == "bool":
+                    # two outcomes: returned true (advanced by its summary, position otherwise unknown) / returned false (cursor untouched)
+                    adv = me.call_advance(f, n, callee)
+                    st = shift(moved(s), "cur", adv, more=s[0] - {"cur"})
+                    tag = ("__call__", n.get("l"), n.get("fn"))
+                    return (with_bool(st, tag, True), with_bool(s, tag, False))
+                return (me.setb(moved(s), {}, more=s[0] - {"cur"}),)
             return (s,)
+
+        def pure_pred(e2):
+            """a predicate over the character under a position: no call that can move the cursor; returns (position, text) or None"""
+            tgt = None
+            for x in walk(e2):
+                if x.get("k") == "call" and x.get("fn") is not None:
+                    c = prog.fn_by_id(f, x["fn"])
+                    if c is not None and fkey(c) in me.fns and me.touches(c):
+                        return None
+                if x.get("k") == "call" and x.get("op") == "*" and (x.get("obj") is not None or x.get("args")):
+                    t = me.posref(f, x.get("obj") if x.get("obj") is not None else x["args"][0])
+                    if t is not None:
+                        tgt = t
+            if tgt is None:
+                return None
+            return tgt, expr_str(prog, f, e2)
 
         def refine(e, truth, s):
             e2 = strip_casts(e)
             if e2.get("k") == "call" and e2.get("name") == "has_more" and e2.get("obj") is not None:
                 t = me.posref(f, e2["obj"])
+                if me.progress and t is not None:
+                    if not truth and t in s[0]:
+                        return ()                  # known to have more input
+                    if truth and dict(s[2]).get(("pp", t)):
+                        # `++p` with nothing in between, and p still has input: that ++ did advance
+                        s = with_bool(shift(s, t, 1), ("pp", t), None)
                 if t is not None and truth:
                     return ((s[0] | {t}, s[1], s[2]),)
                 return (s,)
+            if me.progress:
+                if e2.get("k") == "member" and isinstance(e2.get("t"), int) and prog.T(f, e2["t"]).replace("const ", "") == "bool":
+                    key = ("m", expr_str(prog, f, e2))
+                    bv = dict(s[2]).get(key)
+                    if bv is not None and bv != truth:
+                        return ()
+                    return (with_bool(s, key, truth),)
+                pp = pure_pred(e2)
+                if pp is not None:
+                    key = ("p", pp[0], pp[1])
+                    bv = dict(s[2]).get(key)
+                    if bv is not None and bv != truth:
+                        return ()
+                    return (with_bool(s, key, truth),)
             if e2.get("k") == "ref" and e2.get("rk") == "local":
                 bv = dict(s[2]).get(e2.get("vid"), None)
                 if bv is not None and bv != truth:
                     return ()
                 return (s,)
+            if me.progress and e2.get("k") == "call" and e2.get("name") in ("any_of", "find_if") and truth:
+                lams = [strip_casts(a) for a in e2.get("args", []) if strip_casts(a).get("k") == "lambda"]
+                if lams and lams[0].get("fn") is not None:
+                    lf = me.lambda_fn(f, lams[0])
+                    if lf is not None:
+                        # the predicate returned true for one element; earlier elements made it return false, which never moves backwards
+                        adv = me.summary.get(fkey(lf), {}).get("adv_true", 0)
+                        return (shift(moved(s), "cur", adv, more=s[0] - {"cur"}),)
+            if me.progress and e2.get("k") == "call" and e2.get("fn") is not None:
+                tag = ("__call__", e2.get("l"), e2.get("fn"))
+                tv = dict(s[2]).get(tag)
+                if tv is not None:
+                    return (with_bool(s, tag, None),) if tv == truth else ()
+            if me.progress and e2.get("k") == "call" and e2.get("op") in ("!=", "<") and truth and e2.get("obj") is not None and e2.get("args"):
+                t1 = me.posref(f, e2["obj"])
+                t2 = me.posref(f, e2["args"][0])
+                if t1 is not None and t2 is not None:
+                    return ((s[0] | {t1}, s[1], s[2]),)       # strictly before another position of the same buffer: not at the end
             if e2.get("k") == "call" and e2.get("fn") is not None and truth:
                 callee = prog.fn_by_id(f, e2["fn"])
                 if callee is not None and fkey(callee) in me.fns:
@@ -321,12 +438,21 @@ class Cursor:
                 rv = dict(s[2]).get(e.get("vid"))
             elif e.get("k") == "call" and e.get("fn") is not None:
                 callee = prog.fn_by_id(f, e["fn"])
-                if callee is not None and fkey(callee) in me.fns:
+                tag = ("__call__", e.get("l"), e.get("fn"))
+                lams = [strip_casts(a) for a in e.get("args", []) if strip_casts(a).get("k") == "lambda"] if me.progress and e.get("name") in ("any_of", "find_if") else []
+                if lams and me.lambda_fn(f, lams[0]) is not None:
+                    lf = me.lambda_fn(f, lams[0])
+                    rv = ("call", fkey(lf), me.summary.get(fkey(lf), {}).get("adv_true", 0))
+                elif me.progress and dict(s[2]).get(tag) is not None:
+                    rv = dict(s[2])[tag]            # outcome already split (and the advance already applied) at the call
+                elif callee is not None and fkey(callee) in me.fns:
                     rv = ("call", fkey(callee), me.call_advance(f, e, callee))
             return (s[0], s[1], s[2] + (("__rv__", rv),))
 
         ai = AbsInt(transfer, refine=refine, on_return=on_return, max_iter=40)
-        fl = ai.exec(f["body"], entry or {self.init_state()})
+        if want_ai:
+            return ai
+        fl = ai.exec(node if node is not None else f["body"], entry or {self.init_state()})
         if ai.incomplete:
             self.incomplete.add(strip_targs(f["q"]))
         return fl
@@ -339,7 +465,7 @@ class Cursor:
         name = callee["name"]
         base = self.summary.get(fkey(callee), {}).get("adv_true", 0)
         pd = self.param_dep.get(fkey(callee))
-        if name == "Symbol_":
+        if name == "Symbol_" or (self.progress and name == "Keyword_"):
             pd, base = 0, 0
         if pd is not None and len(call.get("args", [])) > pd:
             a = strip_casts(call["args"][pd])
@@ -353,6 +479,8 @@ class Cursor:
             if a.get("k") == "ref" and a.get("rk") == "param":
                 # forwarded symbol parameter: the advance depends on our own caller's argument
                 self.param_dep.setdefault(fkey(caller), a.get("idx"))
+            if self.progress:
+                return min(base + 1, HI)      # every Static_String the parser is built with is non-empty (checked by R1.6)
             return base
         return base
 
@@ -376,7 +504,11 @@ class Cursor:
             if t is not None:
                 adv_true = t if adv_true is None else min(adv_true, t)
         self.exit_bounds[strip_targs(f["q"])] = (adv_any if adv_any is not None else 0, f)
-        return {"adv_true": max(0, min(adv_true if adv_true is not None else 0, HI)), "adv_any": adv_any if adv_any is not None else 0}
+        out = {"adv_true": max(0, min(adv_true if adv_true is not None else 0, HI)), "adv_any": adv_any if adv_any is not None else 0}
+        if self.progress:
+            falses = [s for s in (fl.returns | fl.normal) if dict((k, v) for k, v in s[2] if k == "__rv__").get("__rv__", None) is not True]
+            out["unmoved_on_false"] = bool(fl.returns) and all(not dict(s[2]).get("__moved__", False) for s in falses)
+        return out
 
 
 def run(chk):
@@ -537,6 +669,158 @@ def run(chk):
     r3.ob("all %d parser functions end at or after the position where they started" % len(cur.exit_bounds), all(b >= 0 for b, _ in cur.exit_bounds.values()), "", "", "")
     r3.note("computed advance-on-true summaries: %s" % {strip_targs(prog._by_id[k]["q"]).split("::")[-1]: v["adv_true"] for k, v in cur.summary.items() if v["adv_true"] > 0})
     r3.require(20, "cursor obligations")
+
+    # ------------------------------------------------------------------ R1.6 loop progress
+    r6 = chk.rule("R1.6", "every input-driven loop of the lexer/parser consumes at least one character in each iteration that can be followed by another one (recursion is bounded by R1.2)",
+                  "parsing terminates for every input")
+    from ..absint import Flow
+    # generic closures inside the instantiated parser (their call operator is only instantiated inside std algorithms)
+    glams = [l for l in prog.fns if l["kind"] == "lambda" and l["tk"] == "pattern" and outer_targs(l["q"], PARSER) == primary]
+    pcur = Cursor(prog, members + [l for l in pfns if l["kind"] == "lambda"] + glams, progress=True)
+    # greatest fixpoint: assume every bool-returning parser function consumed at least one character when it returned true,
+    # then re-derive each function's claim under that assumption until nothing changes (induction on the height of the
+    # call tree of a terminating execution; the claim is only ever used about calls that have returned)
+    porder = sorted(members + [l for l in pfns if l["kind"] == "lambda"] + glams, key=lambda g: (len(list(walk(g["body"]))), g["q"]))
+    for g in porder:
+        if prog.T(g, g.get("ret")) == "bool" and pcur.touches(g):
+            pcur.summary[fkey(g)] = {"adv_true": 1, "adv_any": 0, "unmoved_on_false": False}
+    for rnd in range(8):
+        changed = False
+        for g in porder:
+            old_s = pcur.summary.get(fkey(g))
+            new_s = pcur.summarise(g)
+            if old_s is not None:
+                new_s["adv_true"] = min(new_s["adv_true"], max(old_s["adv_true"], 0)) if old_s["adv_true"] else new_s["adv_true"]
+            if new_s != old_s:
+                changed = True
+            pcur.summary[fkey(g)] = new_s
+        pcur.obligations = {}
+        if not changed:
+            break
+    nloops = nskip = 0
+    seen6 = {}
+    for g in sorted(members + [l for l in pfns if l["kind"] == "lambda"], key=lambda g: g["q"]):
+        loops = [n for n in walk(g["body"]) if n.get("k") in ("while", "do")]
+        if not loops:
+            continue
+        ai = pcur.analyse(g, want_ai=True)
+        for L in loops:
+            cond = L.get("cond") or {}
+            pos_locals = set()
+            driven = False
+            for x in walk(cond):
+                if x.get("k") == "member" and x.get("name") == "m_position":
+                    driven = True
+                if x.get("k") == "call" and x.get("fn") is not None:
+                    c = prog.fn_by_id(g, x["fn"])
+                    if c is not None and fkey(c) in pcur.fns:
+                        driven = True
+                if x.get("k") == "ref" and x.get("rk") in ("local", "param"):
+                    t = prog.T(g, x.get("t")) if isinstance(x.get("t"), int) else ""
+                    if is_pos_type(t):
+                        pos_locals.add(x["vid"])
+                        driven = True
+                    elif t.replace("const ", "") == "bool":
+                        driven = True
+            base = "%s: loop `%s`" % (strip_targs(g["q"]).replace(PARSER + "::", ""), expr_str(prog, g, cond)[:60])
+            seen6[base] = seen6.get(base, 0) + 1
+            ident = base if seen6[base] == 1 else "%s #%d" % (base, seen6[base])
+            if not driven:
+                nskip += 1
+                r6.note("%s is not input-driven (container / index loop)" % ident)
+                continue
+            nloops += 1
+            head = Cursor.init_state()
+            head = Cursor.setb(head, {("off", v): 0 for v in pos_locals})
+            fl0 = Flow()
+            if L["k"] == "do":
+                tstates = {head}
+            else:
+                tstates, _ = ai.cond(cond, {head}, fl0)
+            r = ai.exec(L.get("body"), tstates)
+            ends = set(r.normal) | set(r.continues)
+            def stuck(states):
+                out = []
+                for st in states:
+                    t2, _ = ai.cond(cond, {st}, Flow())
+                    if not t2:
+                        continue
+                    adv = max([Cursor.get(st, "cur")] + [Cursor.get(st, ("off", v)) for v in pos_locals])
+                    # the advance made by evaluating the condition again counts for the next iteration, not for this one
+                    if adv < 1:
+                        out.append(st)
+                return out
+            bad = stuck(ends)
+            if bad:
+                # an iteration that only changes a mode flag is fine if the following iteration must advance (2-induction)
+                t3 = set()
+                for st in bad:
+                    t3 |= ai.cond(cond, {st}, Flow())[0]
+                r2 = ai.exec(L.get("body"), t3)
+                bad = stuck(set(r2.normal) | set(r2.continues))
+            r6.ob(ident + " consumes input in every iteration that can be followed by another", not bad and not ai.incomplete, "%s:%d" % (g["file"], L["l"]), g["q"],
+                  "an iteration can complete with the cursor where it was while the loop condition still holds: the parser does not terminate on such input "
+                  "(%d of %d end states; e.g. %s)" % (len(bad), len(ends), str(sorted(bad, key=str)[:1])[:200]))
+    # supporting facts the summaries rest on
+    empties = []
+    nss = 0
+    srcs = [(g, g["body"]) for g in members + glams + [l for l in pfns if l["kind"] == "lambda"]]
+    for g, body in srcs:
+        for x in walk(body):
+            if x.get("k") == "construct" and "Static_String" in prog.T(g, x.get("t")):
+                for a in x.get("args", []):
+                    a = strip_casts(a)
+                    if a.get("k") == "lit" and a.get("lt") == "string":
+                        nss += 1
+                        if len(a.get("v", "")) == 0:
+                            empties.append("%s:%d" % (g["file"], x["l"]))
+    for st in prog.statics.values():
+        if "Static_String" in st["type"] and st.get("init") is not None and PARSER in st["q"]:
+            for a in walk(st["init"]):
+                if a.get("k") == "lit" and a.get("lt") == "string":
+                    nss += 1
+                    if len(a.get("v", "")) == 0:
+                        empties.append(st["q"])
+    for q, rec in prog.records.items():
+        if q.startswith(PARSER + "<") and q.endswith("::Operator_Matches"):
+            for fl_ in rec["fields"]:
+                for a in walk(fl_.get("init") or {}):
+                    if a.get("k") == "lit" and a.get("lt") == "string":
+                        nss += 1
+                        if len(a.get("v", "")) == 0:
+                            empties.append("%s::%s" % (q[-30:], fl_["name"]))
+    r6.ob("every Static_String the parser is built with (keywords, symbols, operator tables: %d literals) is non-empty" % nss, not empties and nss >= 40, "", "",
+          "empty symbol at %s: matching it consumes nothing" % empties[:3])
+    for nm in ("Symbol_", "Keyword_"):
+        gs = [g for g in members if g["name"] == nm]
+        r6.anchor(gs, "ChaiScript_Parser::%s" % nm)
+        g = gs[0]
+        flow = FnFlow(g)
+        rt = [n for n in walk(g["body"]) if n.get("k") == "return" and strip_casts(n.get("e") or {}).get("v") is True]
+        ok = False
+        why = "no single `return true`"
+        if len(rt) == 1:
+            dom = list(flow.dominating(rt[0]))
+            lens = {v["vid"] for n in walk(g["body"]) if n.get("k") == "decl" for v in n["vars"] if v.get("init") is not None and
+                    strip_casts(v["init"]).get("k") == "call" and strip_casts(v["init"]).get("name") == "size" and
+                    strip_casts(strip_casts(v["init"]).get("obj") or {}).get("rk") == "param"}
+            guard = any(x.get("k") == "binop" and x.get("op") == ">=" and "remaining" in expr_str(prog, g, x) and strip_casts(x["rhs"]).get("vid") in lens for x in dom)
+            adv = False
+            for x in dom:
+                if x.get("k") == "call" and x.get("op") == "+=" and pcur.posref(g, x.get("obj")) == "cur" and strip_casts(x["args"][0]).get("vid") in lens:
+                    adv = True
+                if x.get("k") == "call" and x.get("op") == "=" and pcur.posref(g, x.get("obj")) == "cur":
+                    # m_position = tmp where tmp was stepped once per matched character in a loop bounded by len
+                    loops_ = [l_ for l_ in walk(g["body"]) if l_.get("k") == "for" and any(strip_casts(y).get("vid") in lens for y in walk(l_.get("cond") or {}))]
+                    stepped = any(y.get("k") == "call" and y.get("op") == "++" for l_ in loops_ for y in walk(l_.get("body") or {}))
+                    adv = bool(loops_) and stepped
+            ok = guard and adv
+            why = "remaining() >= len guard: %s; cursor advanced by len before `return true`: %s" % (guard, adv)
+        r6.ob("%s consumes exactly the length of its symbol when it returns true" % nm, ok, g.where, g["q"], why)
+    r6.note("summaries used here are the greatest fixpoint of 'returned true => consumed at least one character': assumed for every callee, re-derived for every "
+            "function under that assumption until stable; valid for calls that have returned (induction on the height of the call tree)")
+    r6.note("%d input-driven loops analysed, %d container/index loops skipped" % (nloops, nskip))
+    r6.require(40, "input-driven loops")
 
     # ------------------------------------------------------------------ R1.4 exception escape
     r4 = chk.rule("R1.4", "only eval_error can leave ChaiScript_Parser::parse; nothing can leave a destructor or noexcept function of the parser",
